@@ -76,6 +76,13 @@ def element_pool(cell: str, gdim: int, maxdeg: int = 3, rich: bool = True):
         add("real", ["real", [gdim]])
         add("mixed", ["mixed", [["el", "P", 2 if maxdeg >= 2 else 1, {"shape": [gdim]}], ["el", "P", 1, {}]]])
         add("mixed", ["mixed", [["el", "P", 1, {}], ["el", "P", 1, {"dc": True}]]])
+        # equal-order pairs: sub-elements with one scalar dimension but different block sizes, in both orders
+        add("mixed", ["mixed", [["el", "P", 1, {"shape": [gdim]}], ["el", "P", 1, {}]]])
+        add("mixed", ["mixed", [["el", "P", 1, {}], ["el", "P", 1, {"shape": [gdim]}]]])
+        add("mixed", ["mixed", [["el", "P", 1, {"shape": [gdim]}], ["el", "P", 1, {"shape": [gdim], "dc": True}], ["el", "P", 0, {"dc": True}]]])
+        add("mixed", ["mixed", [["el", "P", 1, {"shape": [gdim, gdim], "sym": True}], ["el", "P", 1, {"shape": [gdim]}], ["el", "P", 1, {}]]])
+        if maxdeg >= 2:
+            add("mixed", ["mixed", [["el", "P", 2, {"shape": [gdim]}], ["el", "P", 2, {}]]])
         if cell in ("triangle", "tetrahedron"):
             add("mixed", ["mixed", [["el", "RT", 1, {}], ["el", "P", 0, {"dc": True}]]])
             add("mixed", ["mixed", [["el", "N1curl", 1, {}], ["el", "P", 1, {}]]])
@@ -334,6 +341,10 @@ def gen_atom(g: G, m):
     if g.complex and g.chance(0.3):
         g.features.add("lit:complex")
         return ["clit", v, g.pick(LITS)]
+    if g.chance(0.3):
+        # a Python int as users write it (2*f, max_value(1, f), 2**f): a UFL IntValue, an integer literal in the generated code
+        g.features.add("lit:int")
+        return ["lit", g.pick([1, 2, 3, -1, -2, 5])]
     return ["lit", v]
 
 
@@ -341,8 +352,16 @@ def gen_scalar(g: G, m, depth):
     """A scalar (possibly nonlinear) expression without arguments; domain-safe by construction."""
     if depth <= 0 or g.chance(0.35):
         return gen_atom(g, m)
-    kind = g.pick(["add", "sub", "mul", "divsafe", "fun", "fun", "cond", "maxmin", "pow"])
+    kind = g.pick(["add", "sub", "mul", "divsafe", "fun", "fun", "cond", "maxmin", "pow", "atan2"])
     a = gen_scalar(g, m, depth - 1)
+    if kind == "atan2":
+        if g.complex:
+            kind = "mul"
+        else:
+            # second operand kept positive: away from the branch cut and the origin
+            g.features.add("fun:atan2")
+            b = gen_scalar(g, m, depth - 1)
+            return ["atan2", a, ["add", ["lit", 2.0], _sq(g, b)]]
     if kind in ("add", "sub", "mul"):
         b = gen_scalar(g, m, depth - 1)
         g.features.add("op:" + kind)
@@ -353,8 +372,13 @@ def gen_scalar(g: G, m, depth):
         return ["div_", a, ["add", ["lit", 2.0], _sq(g, b)]]
     if kind == "pow":
         g.features.add("op:pow")
-        if g.chance(0.5):
+        if g.chance(0.4):
             return ["pow", a, ["lit", g.pick([2, 3])]]
+        if g.chance(0.3) and not g.complex and g.profile.get("int_base_pow"):
+            # integer base, bounded real exponent (2**f).  Only for checks that compile for real scalar types: UFL's complex-mode
+            # algebra lowering does not terminate on a constant base with a non-literal exponent (outside FFCx)
+            g.features.add("op:pow-int-base")
+            return ["pow", ["lit", g.pick([2, 3])], ["tanh", a]]
         # general power with positive base
         return ["pow", ["add", ["lit", 1.5], _sq(g, a)], ["lit", g.pick([0.5, 1.5, -0.5, 2.5])]]
     if kind == "maxmin":
